@@ -17,6 +17,7 @@ import Golib.Proof.C04SliceSeq
 import Golib.Proof.C04Client
 import Golib.Proof.C04Overflow
 import Golib.Proof.C04Cmp
+import Golib.Proof.C04Trans
 
 namespace Golib.C04
 
@@ -511,5 +512,109 @@ example : IdxInv { HMem.zero with a0 := [0, 1], idx := (Golib.C13.IM.empty.set 0
   | 0, hk => simp at hk; subst hk; simp [Golib.C13.IM.get_set]
   | 1, hk => simp at hk; subst hk; simp [Golib.C13.IM.get_set]
   | k + 2, hk => simp at hk
+
+/-! ### Regenerated tie (wave 8)
+
+`Golib.Gen.Trans.C04.swap / up / down / fix / build` are regenerated by `go2lean` from
+`heapz/adjustment.go` of the tree under verification on every run (`Gen/TransC04.lean`), generic in
+the element type `T`, with the callbacks as parameters: `cmp : T → T → Bool` (ASSUMED pure and total,
+as the generated header says: a comparator that panics or has effects is outside the tie) and
+`swap : List T → Int → Int → Res (List T)` (may panic; returns the slice after the call; a written
+slice parameter comes back after the results: state passing).  Abstraction (`Proof/C04Trans.lean`):
+the model's container is `σ = List T` with `cbOps cmp sw` (`less s j i = cmp s[j] s[i]`, panic on an
+index out of range; `swap = sw`), where `sw : List T → Int → Int → Option (List T)` is ANY behaviour
+of the swap callback (`none` = it panics), handed to the generated code as `cbSwap sw`; `optRes` maps
+the model's `none` to `.panic`; `.fuel` never occurs.  No well-formedness hypothesis is needed: the
+ties hold for every slice, every index (negative, out of range) and every callback.  For `T = int` and
+the package's own `swap[T]` (`c04_trans_swap`), `cbOps cmp swapL` IS `sliceOps cmp`, the instance the
+theorems above are about (`c04_trans_slice`).  `int` is the unbounded `Int` on both sides; the
+64-bit overflow of `2*i + 1` is `c04_down_no_overflow`'s subject, not this tie's. -/
+
+/-- The regenerated `swap[T]` IS `swapL`: exchanges the two cells; panics exactly when an index is
+out of range. -/
+theorem c04_trans_swap {T : Type} [Inhabited T] (s : List T) (i j : Int) :
+    Golib.Gen.Trans.C04.swap s i j = optRes id (swapL s i j) :=
+  trans_swap_eq s i j
+
+/-- The regenerated `up` IS `upF` over the callbacks: same final slice; panics exactly where the
+model does; never out of fuel — for every slice, index and callback behaviour. -/
+theorem c04_trans_up {T : Type} [Inhabited T] (cmp : T → T → Bool)
+    (sw : List T → Int → Int → Option (List T)) (s : List T) (j : Int) :
+    Golib.Gen.Trans.C04.up s cmp (cbSwap sw) j = optRes id (upF (cbOps cmp sw) s j) :=
+  trans_up_eq cmp sw s j
+
+/-- The regenerated `down` IS `downB` (boolean result `i > i0` first, then the slice). -/
+theorem c04_trans_down {T : Type} [Inhabited T] (cmp : T → T → Bool)
+    (sw : List T → Int → Int → Option (List T)) (s : List T) (i0 n : Int) :
+    Golib.Gen.Trans.C04.down s cmp (cbSwap sw) i0 n
+      = optRes (fun p : List T × Bool => (p.2, p.1)) (downB (cbOps cmp sw) s i0 n) :=
+  trans_down_eq cmp sw s i0 n
+
+/-- The regenerated `fix` IS the model's `fix`. -/
+theorem c04_trans_fix {T : Type} [Inhabited T] (cmp : T → T → Bool)
+    (sw : List T → Int → Int → Option (List T)) (s : List T) (index tail : Int) :
+    Golib.Gen.Trans.C04.fix s cmp (cbSwap sw) index tail
+      = optRes id (fix (cbOps cmp sw) s index tail) :=
+  trans_fix_eq cmp sw s index tail
+
+/-- The regenerated `build` IS the model's `build` with `n = len(s)`. -/
+theorem c04_trans_build {T : Type} [Inhabited T] (cmp : T → T → Bool)
+    (sw : List T → Int → Int → Option (List T)) (s : List T) :
+    Golib.Gen.Trans.C04.build s cmp (cbSwap sw)
+      = optRes id (build (cbOps cmp sw) s (s.length : Int)) :=
+  trans_build_eq cmp sw s
+
+/-- The instance `heapz/slice.go` uses (`T = int`, callback `swap[T]` = the regenerated `swap`
+itself): the regenerated functions are the `sliceOps` model of the theorems above. -/
+theorem c04_trans_slice (cmp : Int → Int → Bool) (s : List Int) (i n : Int) :
+    Golib.Gen.Trans.C04.up s cmp Golib.Gen.Trans.C04.swap i = optRes id (upF (sliceOps cmp) s i) ∧
+    Golib.Gen.Trans.C04.down s cmp Golib.Gen.Trans.C04.swap i n
+      = optRes (fun p : List Int × Bool => (p.2, p.1)) (downB (sliceOps cmp) s i n) ∧
+    Golib.Gen.Trans.C04.fix s cmp Golib.Gen.Trans.C04.swap i n = optRes id (fix (sliceOps cmp) s i n) ∧
+    Golib.Gen.Trans.C04.build s cmp Golib.Gen.Trans.C04.swap
+      = optRes id (build (sliceOps cmp) s (s.length : Int)) := by
+  rw [← cbSwap_swapL, ← cbOps_swapL]
+  exact ⟨c04_trans_up cmp swapL s i, c04_trans_down cmp swapL s i n, c04_trans_fix cmp swapL s i n,
+    c04_trans_build cmp swapL s⟩
+
+/-- `c04_down_restores` directly on the generated definitions. -/
+theorem c04_trans_down_restores {cmp} (hs : SWO cmp) (s : List Int) (i n lo : Nat)
+    (hn : n ≤ s.length) (hlo : lo ≤ i) (hin : i ≤ n) (hpre : DownPre cmp (nthN s) i n lo true) :
+    ∃ (s' : List Int) (i' : Nat),
+      Golib.Gen.Trans.C04.down s cmp Golib.Gen.Trans.C04.swap (i : Int) (n : Int)
+        = .ok (decide (i < i'), s') ∧
+      s'.length = s.length ∧ s'.Perm s ∧ (∀ k, n ≤ k → nthN s' k = nthN s k) ∧
+      HeapOn cmp (nthN s') lo n := by
+  obtain ⟨s', i', h1, h2⟩ := c04_down_restores hs s i n lo hn hlo hin hpre
+  exact ⟨s', i', by rw [(c04_trans_slice cmp s i n).2.1, h1]; rfl, h2⟩
+
+/-- `c04_up_restores` directly on the generated definitions. -/
+theorem c04_trans_up_restores {cmp} (hs : SWO cmp) (s : List Int) (j n : Nat)
+    (hn : n ≤ s.length) (hj : j < n) (hpre : UpPre cmp (nthN s) j n) :
+    ∃ s', Golib.Gen.Trans.C04.up s cmp Golib.Gen.Trans.C04.swap (j : Int) = .ok s' ∧
+      s'.length = s.length ∧ s'.Perm s ∧ (∀ k, n ≤ k → nthN s' k = nthN s k) ∧
+      HeapOn cmp (nthN s') 0 n := by
+  obtain ⟨s', h1, h2⟩ := c04_up_restores hs s j n hn hj hpre
+  exact ⟨s', by rw [(c04_trans_slice cmp s j 0).1, h1]; rfl, h2⟩
+
+/-- `c04_build_heap` directly on the generated definitions: `build` turns any `[]int` into a heap
+with the same multiset, without panicking. -/
+theorem c04_trans_build_heap {cmp} (hs : SWO cmp) (s : List Int) :
+    ∃ s', Golib.Gen.Trans.C04.build s cmp Golib.Gen.Trans.C04.swap = .ok s' ∧ s'.Perm s ∧ Heap cmp s' := by
+  obtain ⟨s', h1, h2⟩ := c04_build_heap hs s
+  exact ⟨s', by rw [(c04_trans_slice cmp s 0 0).2.2.2, h1]; rfl, h2⟩
+
+/-- Non-vacuity: the generated code run on concrete slices with `<`: `up` from the last position,
+`down` from the root (it moved: `true`), `build`; an index out of range panics; a `swap` callback
+that panics makes `up` panic (`cbSwap fun _ _ _ => none`). -/
+example :
+    Golib.Gen.Trans.C04.up [3, 5, 1] (fun a b => decide (a < b)) Golib.Gen.Trans.C04.swap 2 = .ok [1, 5, 3] ∧
+    Golib.Gen.Trans.C04.down [9, 5, 1, 7] (fun a b => decide (a < b)) Golib.Gen.Trans.C04.swap 0 4
+      = .ok (true, [1, 5, 9, 7]) ∧
+    Golib.Gen.Trans.C04.build [9, 7, 5, 3, 1] (fun a b => decide (a < b)) Golib.Gen.Trans.C04.swap
+      = .ok [1, 3, 5, 9, 7] ∧
+    Golib.Gen.Trans.C04.up [3, 5, 1] (fun a b => decide (a < b)) Golib.Gen.Trans.C04.swap 3 = .panic ∧
+    Golib.Gen.Trans.C04.up [3, 5, 1] (fun a b => decide (a < b)) (cbSwap fun _ _ _ => none) 2 = .panic := by
+  refine ⟨?_, ?_, ?_, ?_, ?_⟩ <;> decide +kernel
 
 end Golib.C04
